@@ -10,7 +10,7 @@ CFG = {
     "prop_file": "Properties/C19.v",
     "run_modules": ["Verif.C19.Run"],
     "coq_dirs": ["C19"],
-    "n": {"quick": 5000, "thorough": 300000},
+    "n": {"quick": 5000, "thorough": 125000},
     "shard": 400,
     "level": "proof",
     "shrink": False,
@@ -67,7 +67,7 @@ CFG = {
                  "the model of JSON.stringify itself (SerializeJSONProperty/Object/Array over JS values) is proved to write exactly that "
                  "canonical text on every JSON-shaped value (any keys, any creation order, any gap), hence parse(stringify v) = v. "
                  "20 theorems, no axioms. The model (parser, JSON.parse result construction, JSON.stringify incl. replacers, toJSON, wrappers, gap) "
-                 "is tied to /repo on every run by differential correspondence on 5000 (quick) / 300000 (thorough) generated cases "
+                 "is tied to /repo on every run by differential correspondence on 5000 (quick) / 125000 (thorough) generated cases "
                  "evaluated by vm_compute; Object.MarshalJSON is compared on the shared domain."),
         "note": ("trusted: Coq kernel + vm_compute; the hand-written grammar and serialiser model; the rounding test and dump matcher of "
                  "Run.v; the Go harness and its JS prelude; the documented lone-surrogate exception of JSON.parse input is carved out by "
